@@ -71,13 +71,18 @@ impl Sys for Sys13 {
                 let op = if a % 2 == 0 { Op::Sleep } else { Op::Wake };
                 let k = ((a - 8) / 2) as u64;
                 let base = rig.ops();
+                let n_slp0 = rig.ctl.slp_events.len();
                 rig.set_faults(&[crate::env::Fault { at: base + k, mode: crate::env::FaultMode::Unchanged }]);
                 let out = rig.apply(&op);
                 rig.set_faults(&[]);
                 let fired = rig.bd.borrow().failed_ops.iter().any(|f| f.0 == base + k);
                 match (&out, fired) {
                     (Outcome::Err(_), true) => {
-                        diverged = true;
+                        // only if the controller really received a sleep command during the failed call is its
+                        // state allowed to differ from the driver's flag afterwards
+                        if rig.ctl.slp_events.len() != n_slp0 {
+                            diverged = true;
+                        }
                         if i + 1 == hist.len() {
                             e1::flag();
                         }
@@ -152,7 +157,7 @@ pub fn roots(_quick: bool) -> Vec<Cfg> {
             if !info.supports[tr.kind_idx()] || (info.c666 && tr.bus16()) {
                 continue;
             }
-            v.push(Cfg { model: ModelId::Builtin(i as u8), tr, win: Some((6, 5, 1, 2)), orient: 0, bgr: false, invert: false, refresh: 0, rst: false });
+            v.push(Cfg { model: ModelId::Builtin(i as u8), tr, win: Some((6, 5, 1, 2)), orient: 0, bgr: false, invert: false, refresh: 0, rst: false, flags: 0 });
         }
     }
     v
